@@ -4,10 +4,11 @@ import SafeC.DispatchTok
 import SafeC.DispatchQuery
 import SafeC.DispatchMem
 import SafeC.DispatchQuery2
+import SafeC.DispatchOs
 /-! chains the per-family dispatch tables (one `DispatchX.lean` per family) -/
 namespace SafeC.Driver
 
 def dispatch (fn : String) (c : Ctx) : Option (Prog Out) :=
-  dispatchCore fn c <|> dispatchInplace fn c <|> dispatchTok fn c <|> dispatchQuery fn c <|> dispatchMem fn c <|> dispatchQuery2 fn c
+  dispatchCore fn c <|> dispatchInplace fn c <|> dispatchTok fn c <|> dispatchQuery fn c <|> dispatchMem fn c <|> dispatchQuery2 fn c <|> dispatchOs fn c
 
 end SafeC.Driver
